@@ -14,6 +14,7 @@
 (*         reported: Consistent(graph) is the verdict they must match (C19)*)
 (***************************************************************************)
 EXTENDS Format, Json
+BT == INSTANCE BTree WITH Cap <- 4, MaxKeys <- 0, MinFill <- 1, leaves <- <<>>, dirty <- FALSE
 
 Input == ndJsonDeserialize("files.ndjson")
 VARIABLE l
@@ -81,8 +82,15 @@ TSurgery ==
              /\ Expect(E.out.content = E.versions[ToString(E.src.txid - 1)], "revert-meta-page does not present exactly the previously committed state")
              /\ Expect(Consistent(g), "accounting broken after revert-meta-page")
 
+\* the shape of every committed bucket tree (BTree.tla), from the decoder's page / bucket records
+TShape == /\ IsEvent("Shape")
+          /\ Expect(BT!FitsOK(E.pages), "an element lies outside its page (C07)")
+          /\ Expect(BT!BalancedOK(E.pages), "leaves of one bucket are on different levels")
+          /\ Expect(BT!RootOK(E.pages) /\ BT!LeafOK(E.pages) /\ BT!BranchOK(E.pages), "empty non-root leaf, or branch page with fewer than two children")
+          /\ Expect(BT!InlineOK(E.buckets, E.ps), "an inline bucket holds nested buckets or is larger than a quarter page")
+
 EInit == l = 1
-ENext == TFile \/ TMetas \/ TGraph \/ TSurgery
+ENext == TFile \/ TMetas \/ TGraph \/ TSurgery \/ TShape
 ESpec == EInit /\ [][ENext]_l
 HighWater == TLCSet(1, IF TLCGet(1) < l THEN l ELSE TLCGet(1))
 Accepted == IF TLCGet(1) = Len(Input) + 1 THEN TRUE
